@@ -1,4 +1,5 @@
 // UNIT U-QUEUE: util/messages_queue.rs + the receive functions of lib.rs  (DESIGN 5 / C07, C17)
+#![feature(allocator_api)]
 #![allow(unused_imports, dead_code, unused_variables, unused_mut)]
 use vstd::prelude::*;
 use std::collections::VecDeque;
@@ -12,6 +13,7 @@ use std::io::Result as IoResult;
 verus! {
 //@include prelude/io_error.rs
 //@include prelude/sync.rs
+//@include prelude/vecdeque.rs
 
 pub assume_specification<T: ?Sized>[ Mutex::<T>::lock ](m: &Mutex<T>) -> (r: std::sync::LockResult<std::sync::MutexGuard<'_, T>>)
     ensures r is Ok, guard_of(&r->Ok_0) == m;
